@@ -576,3 +576,48 @@ Proof.
   intros s H. unfold legend_line.
   assert (E : (80 <? String.length s)%nat = false) by (apply Nat.ltb_ge; exact H). rewrite E. reflexivity.
 Qed.
+
+(* ------------------------------------------------------------------ limiting the number of nodes *)
+Lemma select_top_nodes_nonneg_ok : forall len n, 0 <= len -> 0 <= n -> is_panic (select_top_nodes len n) = false.
+Proof.
+  intros len n Hl Hn. unfold select_top_nodes.
+  destruct (len <? n) eqn:E.
+  - assert (H : (0 <=? len) && (len <=? len) = true) by (apply andb_true_intro; split; apply Z.leb_le; lia).
+    rewrite H. reflexivity.
+  - apply Z.ltb_ge in E.
+    assert (H : (0 <=? n) && (n <=? len) = true) by (apply andb_true_intro; split; apply Z.leb_le; lia).
+    rewrite H. reflexivity.
+Qed.
+
+Lemma select_top_nodes_negative_panics : forall len n, 0 <= len -> n < 0 -> is_panic (select_top_nodes len n) = true.
+Proof.
+  intros len n Hl Hn. unfold select_top_nodes.
+  assert (E : (len <? n) = false) by (apply Z.ltb_ge; lia). rewrite E.
+  assert (H : (0 <=? n) = false) by (apply Z.leb_gt; lia). rewrite H. reflexivity.
+Qed.
+
+Lemma limit_nodes_no_panic : forall node_count len, 0 <= len ->
+  is_panic (limit_nodes node_count_guard node_count len) = false.
+Proof.
+  intros nc len Hl. unfold limit_nodes, node_count_guard. destruct (0 <? nc) eqn:E; [|reflexivity].
+  apply Z.ltb_lt in E. apply select_top_nodes_nonneg_ok; lia.
+Qed.
+
+Lemma limit_nodes_bounds : forall node_count len m, 0 <= len ->
+  limit_nodes node_count_guard node_count len = Ok m -> 0 <= m <= len /\ (0 < node_count -> m <= node_count).
+Proof.
+  intros nc len m Hl H. unfold limit_nodes, node_count_guard in H. destruct (0 <? nc) eqn:E.
+  - apply Z.ltb_lt in E. unfold select_top_nodes in H. destruct (len <? nc) eqn:E2.
+    + apply Z.ltb_lt in E2. destruct ((0 <=? len) && (len <=? len)); inversion H; subst. lia.
+    + apply Z.ltb_ge in E2. destruct ((0 <=? nc) && (nc <=? len)); inversion H; subst. lia.
+  - apply Z.ltb_ge in E. inversion H; subst. lia.
+Qed.
+
+(* a guard that lets a negative count through (e.g. "not zero") does reach the panic *)
+Lemma limit_nodes_weak_guard_panics : forall len n, 0 <= len -> n < 0 ->
+  is_panic (limit_nodes (fun k => negb (k =? 0)) n len) = true.
+Proof.
+  intros len n Hl Hn. unfold limit_nodes.
+  assert (E : (n =? 0) = false) by (apply Z.eqb_neq; lia). rewrite E. cbn [negb].
+  apply select_top_nodes_negative_panics; assumption.
+Qed.
